@@ -240,13 +240,11 @@ func readFrame(c net.Conn) (int, []byte, error) {
 	return int(h[0]), data, nil
 }
 
-func flushedHandshake() []byte {
-	// a handshake as an agent sends it (protocol version, version, short id, commit id, token)
-	var b []byte
-	b = append(b, 1, 0)
-	for _, s := range []string{"1.0", "abcdef0", "abcdef0123456789", "tok-c16"} {
-		b = append(b, byte(len(s)), byte(len(s)>>8))
-		b = append(b, s...)
+func agentHandshake() []byte {
+	// the handshake an agent built from this code sends
+	b, err := agent.Handshake{ProtocolVersion: 1, Version: "1.0", ShortCommitID: "abcdef0", CommitID: "abcdef0123456789", Token: "tok-c16"}.MarshalBinary()
+	if err != nil {
+		hx.Fatal("Handshake.MarshalBinary: %v", err)
 	}
 	return b
 }
@@ -262,7 +260,7 @@ func (e *env) open() (*session, string) {
 		hx.Fatal("dial agent listener: %v", err)
 	}
 	s := &session{e: e, c: c, dead: make(chan struct{})}
-	if err := writeFrame(c, 2, flushedHandshake()); err != nil {
+	if err := writeFrame(c, 2, agentHandshake()); err != nil {
 		return s, "handshake could not be sent: " + err.Error()
 	}
 	c.SetReadDeadline(time.Now().Add(5 * time.Second))
